@@ -8,10 +8,13 @@
 //
 // Normal form (so that behaviour-preserving rewrites give the same skeleton):
 //   - a condition is printed with every local variable / parameter of the enclosing function
-//     replaced: a variable with exactly one assignment `x := e` by (the normal form of) e; a
-//     variable that holds the error result of a call by `err`; any other by a description of
-//     where its value comes from ($r receiver, $p2 second parameter, $Cut.2 second result of the
-//     call of Cut that defines it, ...; see describe).  Names of locals never occur.
+//     replaced: a variable with exactly one assignment `x := e` and one use by (the normal form
+//     of) e; a variable that holds the error result of a call by `err`; any other by a
+//     description of where its value comes from ($r receiver, $p2 second parameter, $SetLock.1
+//     first result of the recorded callee that defines it, $v.2 second result of a pure helper,
+//     ...; see describe).  Names of locals never occur; constant strings are folded.
+//   - tail position: at the end of a function / loop body every branch leaves; a bare return
+//     resp. continue there is not a site; statements after a leaving statement are dropped.
 //   - polarity: `!c` and `a == b` are stored as `c` resp. `a != b` with the branches swapped.
 //   - guard clauses: if the positive branch always leaves (return / continue / break / Abort /
 //     panic) the negative branch is recorded as if it stood after the statement, and vice versa;
@@ -630,7 +633,6 @@ func cond(e ast.Expr) (label string, neg bool) {
 }
 
 var explain = flag.Bool("explain", false, "print source condition -> normal form on stderr")
-
 
 func calleeName(fun ast.Expr) (name string, prim bool) {
 	switch f := fun.(type) {
